@@ -297,7 +297,7 @@ theorem tableEntries_step (ee : EntEol) (e : TEntry) (cnt : Nat) (objid : Int) (
   simp only [takeLine_entry ee e x hx, strip_entry, splitSp_entryCore, hdrop]
   have hlen : (([renderDec 10 e.pos, renderDec 5 e.gen, [useByte e]] : List Bytes).length != entryFields) = false := by
     simp [entryFields]
-  simp only [hlen, Bool.false_eq_true, ↓reduceIte, useByte_marker, hp, hg]
+  simp only [hlen, Bool.false_eq_true, ↓reduceIte, entryTuple, tableEntryOf, mkEntry, useByte_marker, hp, hg]
   cases e.inuse with
   | false => simp
   | true =>
@@ -400,7 +400,7 @@ theorem tableLoop_sub (eol : LineEol) (ee : EntEol) (sb : Sub) (fuel : Nat) (x :
     (pos + ((headerCore sb).length + eol.bytes.length)) offs hx hent
   rw [hshape, tableLoop]
   simp only [htl, strip_header sb eol hws hwc, hne, hsw, splitSp_headerCore, hdrop, hp1, hp2,
-    Bool.false_eq_true, ↓reduceIte, Int.toNat_natCast, hent']
+    Bool.false_eq_true, ↓reduceIte, subCount_eq, subsectionFirst_eq, Int.toNat_natCast, hent']
   have hlen : (([renderDec sb.ws sb.start, renderDec sb.wc sb.entries.length] : List Bytes).length != headerFields) = false := by
     simp [headerFields]
   simp only [hlen, Bool.false_eq_true, ↓reduceIte]
